@@ -18,10 +18,25 @@ def heap_series(events):
     return [int(f[1]) for t, kind, f in events if kind == "HEAP" and int(f[0]) >= 0]
 
 
+def _probe_cases():
+    """Feature probes that touch lists / strings / indices (vlib/gen/probes.py): whenever one of them is accepted and compiles,
+    the firmware must stay memory-safe. (Their serial output is C01's business.)"""
+    from ..gen import probes
+    keep = ("list-", "for-in-", "str-", "subscript-store", "negative-step-index", "tuple-index", "enumerate", "unpack-loop", "in-list", "range")
+    return [(n, c, s) for n, c, s in probes.all_probes() if n.startswith(keep)]
+
+
+PROBE_CASES = _probe_cases()
+
+
 def run_case(case):
     kind, idx, sd, hazards, gate = case
     if kind == "lists":
         p = lists.generate((PROP, sd, "lists", idx, hazards), hazards)
+    elif kind == "probe":
+        from ..gen import probes
+        name, ctx, src = PROBE_CASES[idx]
+        p = {"source": src, "features": ["probe:" + name]}
     else:
         p = prog.generate((PROP, sd, "prog", idx), "clean", lists=True)
     script = p["source"]
@@ -98,6 +113,7 @@ def main() -> int:
     cases += [("prog", i, sd, (), i % 4 == 0) for i in range(n_prog)]
     for hz in lists.HAZARDS:
         cases += [("lists", i, sd, (hz,), False) for i in range(100 if t == "thorough" else 24)]
+    cases += [("probe", i, sd, (), False) for i in range(len(PROBE_CASES))]
     for case, st, res in run_cases(run_case, cases):
         if st != "ok":
             rep.inconclusive_because(f"case {case[:2]} failed: {res[-300:]}")
@@ -135,6 +151,9 @@ def main() -> int:
             want = {f["id"]: f.get("expect_c09", "") for f in rep.findings}
             fids = [fid for fid in fids if (want.get(fid) == "leak") == (key == "leak") and
                     (key == "leak" or any(x in key for x in ("use-after-free", "Invalid read", "SEGV", "null pointer")) or key.startswith("fw:") or key.startswith("gate:"))]
+            if not fids and key == "leak" and res["kind"] == "probe" and "KF-list-local-leak" in rep.open_findings:
+                # the main-loop context of a probe creates its list inside loop(): the recorded local-list leak
+                fids = ["KF-list-local-leak"]
             if fids:
                 rep.known(fids[0], msg, w)
             elif "list-grow" in hz:
